@@ -504,7 +504,17 @@ static void GC_New(var self, var args) {
 
 static void GC_Del(var self) {
   struct GC* gc = self;
-  GC_Sweep(gc);
+  
+  /* destructors may allocate: sweep until only roots are left */
+  while (true) {
+    bool left = false;
+    GC_Sweep(gc);
+    for (size_t i = 0; i < gc->nslots; i++) {
+      if (gc->entries[i].hash isnt 0 and not gc->entries[i].root) { left = true; break; }
+    }
+    if (not left) { break; }
+  }
+  
   free(gc->entries);
   free(gc->freelist);
   rem(current(Thread), $S(GC_TLS_KEY));
